@@ -140,7 +140,7 @@ func TestVerifC24(t *testing.T) {
 	env := rec.Env
 	ctx := context.Background()
 
-	hosts := []string{"h1", "h2", "h3"}
+	hosts := []string{"h1", "h2", "h3", "H1"} // case-sensitive host names
 	paths := []string{"/a", "/b", "/c", "/a/b"}
 	tags := []string{"x", "y", "z"}
 	base := time.Date(2020, 3, 1, 12, 0, 0, 0, time.UTC)
